@@ -451,7 +451,20 @@ def r6_every_task_executed(ctx):
                     key='purge-sql-conditional')
 
 
+def r7_stored_m2m_table_name_survives(ctx):
+    """Which many-to-many table a purge / DeleteModel / DeleteApplication
+    drops is computed from the *stored* signature: the field's explicit
+    db_table if it has one, else Django's default <table>_<field>.  Real
+    runs work on a signature that was loaded from the database, so a stored
+    db_table that deserialize() drops (shadowed by a class member, shared
+    with R-C06.10) makes the delete aim at the default name - another
+    app's table when names are prefix-related."""
+    from .c06 import r10_whitelist_names_not_class_attributes
+    r10_whitelist_names_not_class_attributes(ctx, rule_id='R-C15.7')
+
+
 def run(ctx):
+    r7_stored_m2m_table_name_survives(ctx)
     r6_every_task_executed(ctx)
     r5_exact_lookup_first(ctx)
     r1_who_may_drop(ctx)
